@@ -292,7 +292,7 @@ def conditions(tier):
     for m in (-1, 0, 1, 2):
         conds.append(Cond('splitnode_ms%d' % (m + 1), 's: str', skel_pre('?{x}?{}x'), 'body_split_node(s, %d)' % m, timeout=T,
                           smoke=[dict(s='a{x}c{}x')], twin=False))
-    for sn, sk in (('comma', '?{,}?,?'), ('comma', '?,?')):
+    for sn, sk in (('comma', 'x{,}?,x'), ('comma', '?,?')):
         conds.append(Cond('none_items_%d' % len(sk), 's: str', skel_pre(sk), 'body_none_items(s, %r)' % sn, timeout=T, twin=False,
                           smoke=[dict(s=skel_fill(sk))]))
     for pol in ('concatenate', 'first', 'last', 'error'):
